@@ -15,24 +15,29 @@ structure Hyp (c : Bool) (inst : Instance) (dom : List Nat) : Prop where
   coind : ∀ k, k ∈ dom → inst.coind k = c
 
 /-- partial-correctness specification of a sub-goal solver -/
-def SubSpec (c : Bool) (inst : Instance) (dom : List Nat) (rec : SubSolver) : Prop :=
-  ∀ g m s v m' s', Inv c inst dom s → g ∈ dom → rec g m s = .ok (v, m') s' →
-    Inv c inst dom s' ∧ Step c inst s s' m' ∧ MinLe m' m ∧ Fact c inst s s' m' g v
+def SubSpec (c : Bool) (inst : Instance) (dom : List Nat) (fx : Bool) (rec : SubSolver) : Prop :=
+  ∀ g m s v m' s', Inv c inst dom fx s → g ∈ dom → rec g m s = .ok (v, m') s' →
+    Inv c inst dom fx s' ∧ Step c inst s s' m' ∧ MinLe m' m ∧ Fact c inst s s' m' g v
 
 section
-variable {c : Bool} {inst : Instance} {dom : List Nat} {rec : SubSolver} {cfg : Cfg}
+variable {c : Bool} {inst : Instance} {dom : List Nat} {fx : Bool} {rec : SubSolver} {cfg : Cfg}
 
-theorem fulfillRound_sem (hrec : SubSpec c inst dom rec) :
+/-- a sub-list of `cs` appended to `acc` -/
+theorem fulfillRound_sem (hrec : SubSpec c inst dom fx rec) :
     ∀ (cs acc : List Nat) (m : Min) (s : St) (o : Option (List Nat)) (m' : Min) (s' : St),
-      Inv c inst dom s → (∀ x, x ∈ cs → x ∈ dom) → fulfillRound rec cs acc m s = .ok (o, m') s' →
-      Inv c inst dom s' ∧ Step c inst s s' m' ∧ MinLe m' m ∧
-        ((o = some acc ∧ ∀ x, x ∈ cs → Fact c inst s s' m' x .unique) ∨
+      Inv c inst dom fx s → (∀ x, x ∈ cs → x ∈ dom) → fulfillRound rec cs acc m s = .ok (o, m') s' →
+      Inv c inst dom fx s' ∧ Step c inst s s' m' ∧ MinLe m' m ∧
+        ((∃ ret, o = some (acc ++ ret) ∧ (∀ x, x ∈ ret → x ∈ cs) ∧ (ret ≠ [] → s'.interrupted = true) ∧
+            ∀ x, x ∈ cs → Fact c inst s s' m' x .unique ∨ x ∈ ret) ∨
          (o = none ∧ ∃ x, x ∈ cs ∧ Fact c inst s s' m' x .noSolution))
   | [], acc, m, s, o, m', s', hi, _, h => by
     simp only [fulfillRound, Res.ok.injEq, Prod.mk.injEq] at h
     obtain ⟨⟨ho, hm⟩, hs⟩ := h
     subst ho; subst hm; subst hs
-    exact ⟨hi, Step.refl _ _, MinLe.refl _, Or.inl ⟨rfl, fun x hx => by cases hx⟩⟩
+    refine ⟨hi, Step.refl _ _, MinLe.refl _, Or.inl ⟨[], by simp, ?_, ?_, ?_⟩⟩
+    · intro x hx; cases hx
+    · intro hne; exact absurd rfl hne
+    · intro x hx; cases hx
   | x :: rest, acc, m, s, o, m', s', hi, hd, h => by
     simp only [fulfillRound] at h
     cases hr : rec x m s with
@@ -42,7 +47,6 @@ theorem fulfillRound_sem (hrec : SubSpec c inst dom rec) :
       rw [hr] at h
       obtain ⟨hi1, hs1, hle1, hf1⟩ := hrec x m s v m1 s1 hi (hd x (List.mem_cons_self ..)) hr
       cases v with
-      | ambig => exact hf1.ne_ambig.elim
       | noSolution =>
         simp only [Res.ok.injEq, Prod.mk.injEq] at h
         obtain ⟨⟨ho, hm⟩, hs⟩ := h
@@ -55,21 +59,96 @@ theorem fulfillRound_sem (hrec : SubSpec c inst dom rec) :
         refine ⟨hi2, hs1.trans hs2 hle2 hi1 hi2, hle2.trans hle1, ?_⟩
         cases hres with
         | inl hres =>
-          refine Or.inl ⟨hres.1, fun y hy => ?_⟩
+          obtain ⟨ret, ho, hsub, hint, hall⟩ := hres
+          refine Or.inl ⟨ret, ho, fun y hy => List.mem_cons_of_mem _ (hsub y hy), hint, fun y hy => ?_⟩
           cases List.mem_cons.mp hy with
-          | inl e => rw [e]; exact hf1.step (Step.refl s m) hi hs2 hle2
-          | inr e => exact (hres.2 y e).step hs1 hi1 (Step.refl s' m') (MinLe.refl _)
+          | inl e => rw [e]; exact Or.inl (hf1.step (Step.refl s m) hi hs2 hle2)
+          | inr e =>
+            cases hall y e with
+            | inl h1 => exact Or.inl (h1.step hs1 hi1 (Step.refl s' m') (MinLe.refl _))
+            | inr h1 => exact Or.inr h1
+        | inr hres =>
+          obtain ⟨y, hy, hfy⟩ := hres.2
+          exact Or.inr ⟨hres.1, y, List.mem_cons_of_mem _ hy,
+            hfy.step hs1 hi1 (Step.refl s' m') (MinLe.refl _)⟩
+      | ambig =>
+        simp only at h
+        obtain ⟨hi2, hs2, hle2, hres⟩ := fulfillRound_sem hrec rest (acc ++ [x]) m1 s1 o m' s' hi1
+          (fun y hy => hd y (List.mem_cons_of_mem _ hy)) h
+        refine ⟨hi2, hs1.trans hs2 hle2 hi1 hi2, hle2.trans hle1, ?_⟩
+        cases hres with
+        | inl hres =>
+          obtain ⟨ret, ho, hsub, _, hall⟩ := hres
+          refine Or.inl ⟨x :: ret, by rw [ho, List.append_assoc]; rfl, fun y hy => ?_,
+            fun _ => hs2.intr hf1.ambig, fun y hy => ?_⟩
+          · cases List.mem_cons.mp hy with
+            | inl e => rw [e]; exact List.mem_cons_self ..
+            | inr e => exact List.mem_cons_of_mem _ (hsub y e)
+          · cases List.mem_cons.mp hy with
+            | inl e => rw [e]; exact Or.inr (List.mem_cons_self ..)
+            | inr e =>
+              cases hall y e with
+              | inl h1 => exact Or.inl (h1.step hs1 hi1 (Step.refl s' m') (MinLe.refl _))
+              | inr h1 => exact Or.inr (List.mem_cons_of_mem _ h1)
         | inr hres =>
           obtain ⟨y, hy, hfy⟩ := hres.2
           exact Or.inr ⟨hres.1, y, List.mem_cons_of_mem _ hy,
             hfy.step hs1 hi1 (Step.refl s' m') (MinLe.refl _)⟩
 
-theorem fulfillSolve_sem (hrec : SubSpec c inst dom rec) (alt : List Nat) (m : Min) (s : St) (v : V)
-    (m' : Min) (s' : St) (hi : Inv c inst dom s) (hd : ∀ x, x ∈ alt → x ∈ dom)
+/-- the last pass of `Fulfill::solve` over the retained (ambiguous) obligations -/
+theorem suggestPass_sem (hrec : SubSpec c inst dom fx rec) :
+    ∀ (ds : List Nat) (m : Min) (s : St) (v : V) (m' : Min) (s' : St),
+      Inv c inst dom fx s → (∀ x, x ∈ ds → x ∈ dom) → s.interrupted = true →
+      suggestPass cfg rec ds m s = .ok (v, m') s' →
+      Inv c inst dom fx s' ∧ Step c inst s s' m' ∧ MinLe m' m ∧
+        ((v = .ambig ∧ s'.interrupted = true) ∨
+         (v = .noSolution ∧ ∃ x, x ∈ ds ∧ Fact c inst s s' m' x .noSolution))
+  | [], m, s, v, m', s', hi, _, hint, h => by
+    simp only [suggestPass, Res.ok.injEq, Prod.mk.injEq] at h
+    obtain ⟨⟨hv, hm⟩, hs⟩ := h
+    subst hv; subst hm; subst hs
+    exact ⟨hi, Step.refl _ _, MinLe.refl _, Or.inl ⟨rfl, hint⟩⟩
+  | x :: rest, m, s, v, m', s', hi, hd, hint, h => by
+    simp only [suggestPass] at h
+    cases hr : rec x m s with
+    | panic site s1 => rw [hr] at h; cases h
+    | ok r s1 =>
+      obtain ⟨w, m1⟩ := r
+      rw [hr] at h
+      obtain ⟨hi1, hs1, hle1, hf1⟩ := hrec x m s w m1 s1 hi (hd x (List.mem_cons_self ..)) hr
+      cases w with
+      | noSolution =>
+        simp only at h
+        by_cases h16 : cfg.fixF16 = true
+        · simp only [h16, if_true, Res.ok.injEq, Prod.mk.injEq] at h
+          obtain ⟨⟨hv, hm⟩, hs⟩ := h
+          subst hv; subst hm; subst hs
+          exact ⟨hi1, hs1, hle1, Or.inr ⟨rfl, x, List.mem_cons_self .., hf1⟩⟩
+        · simp only [h16] at h
+          cases h
+      | unique =>
+        simp only [Res.ok.injEq, Prod.mk.injEq] at h
+        obtain ⟨⟨hv, hm⟩, hs⟩ := h
+        subst hv; subst hm; subst hs
+        exact ⟨hi1, hs1, hle1, Or.inl ⟨rfl, hs1.intr hint⟩⟩
+      | ambig =>
+        simp only at h
+        obtain ⟨hi2, hs2, hle2, hres⟩ := suggestPass_sem hrec rest m1 s1 v m' s' hi1
+          (fun y hy => hd y (List.mem_cons_of_mem _ hy)) (hs1.intr hint) h
+        refine ⟨hi2, hs1.trans hs2 hle2 hi1 hi2, hle2.trans hle1, ?_⟩
+        cases hres with
+        | inl hres => exact Or.inl hres
+        | inr hres =>
+          obtain ⟨hv, y, hy, hfy⟩ := hres
+          exact Or.inr ⟨hv, y, List.mem_cons_of_mem _ hy, hfy.step hs1 hi1 (Step.refl s' m') (MinLe.refl _)⟩
+
+theorem fulfillSolve_sem (hrec : SubSpec c inst dom fx rec) (alt : List Nat) (m : Min) (s : St) (v : V)
+    (m' : Min) (s' : St) (hi : Inv c inst dom fx s) (hd : ∀ x, x ∈ alt → x ∈ dom)
     (h : fulfillSolve cfg rec alt m s = .ok (v, m') s') :
-    Inv c inst dom s' ∧ Step c inst s s' m' ∧ MinLe m' m ∧
+    Inv c inst dom fx s' ∧ Step c inst s s' m' ∧ MinLe m' m ∧
       ((v = .unique ∧ ∀ x, x ∈ alt → Fact c inst s s' m' x .unique) ∨
-       (v = .noSolution ∧ ∃ x, x ∈ alt ∧ Fact c inst s s' m' x .noSolution)) := by
+       (v = .noSolution ∧ ∃ x, x ∈ alt ∧ Fact c inst s s' m' x .noSolution) ∨
+       (v = .ambig ∧ s'.interrupted = true)) := by
   unfold fulfillSolve at h
   cases hr : fulfillRound rec alt.reverse [] m s with
   | panic site s1 => rw [hr] at h; cases h
@@ -79,34 +158,60 @@ theorem fulfillSolve_sem (hrec : SubSpec c inst dom rec) (alt : List Nat) (m : M
     obtain ⟨hi1, hs1, hle1, hres⟩ := fulfillRound_sem hrec alt.reverse [] m s o m1 s1 hi
       (fun x hx => hd x (List.mem_reverse.mp hx)) hr
     cases hres with
-    | inl hres =>
-      obtain ⟨ho, hall⟩ := hres
-      subst ho
-      simp only [Res.ok.injEq, Prod.mk.injEq] at h
-      obtain ⟨⟨hv, hm⟩, hs⟩ := h
-      subst hv; subst hm; subst hs
-      exact ⟨hi1, hs1, hle1, Or.inl ⟨rfl, fun x hx => hall x (List.mem_reverse.mpr hx)⟩⟩
     | inr hres =>
       obtain ⟨ho, x, hx, hfx⟩ := hres
       subst ho
       simp only [Res.ok.injEq, Prod.mk.injEq] at h
       obtain ⟨⟨hv, hm⟩, hs⟩ := h
       subst hv; subst hm; subst hs
-      exact ⟨hi1, hs1, hle1, Or.inr ⟨rfl, x, List.mem_reverse.mp hx, hfx⟩⟩
+      exact ⟨hi1, hs1, hle1, Or.inr (Or.inl ⟨rfl, x, List.mem_reverse.mp hx, hfx⟩)⟩
+    | inl hres =>
+      obtain ⟨ret, ho, hsub, hint, hall⟩ := hres
+      rw [List.nil_append] at ho
+      subst ho
+      cases ret with
+      | nil =>
+        simp only [Res.ok.injEq, Prod.mk.injEq] at h
+        obtain ⟨⟨hv, hm⟩, hs⟩ := h
+        subst hv; subst hm; subst hs
+        refine ⟨hi1, hs1, hle1, Or.inl ⟨rfl, fun x hx => ?_⟩⟩
+        cases hall x (List.mem_reverse.mpr hx) with
+        | inl h1 => exact h1
+        | inr h1 => cases h1
+      | cons r0 rs =>
+        simp only at h
+        have hsub' : ∀ x, x ∈ (r0 :: rs).reverse → x ∈ alt :=
+          fun x hx => List.mem_reverse.mp (hsub x (List.mem_reverse.mp hx))
+        obtain ⟨hi2, hs2, hle2, hres2⟩ := suggestPass_sem (cfg := cfg) hrec (r0 :: rs).reverse m1 s1 v m' s' hi1
+          (fun x hx => hd x (hsub' x hx)) (hint (by simp)) h
+        refine ⟨hi2, hs1.trans hs2 hle2 hi1 hi2, hle2.trans hle1, ?_⟩
+        cases hres2 with
+        | inl h1 => exact Or.inr (Or.inr h1)
+        | inr h1 =>
+          obtain ⟨hv, y, hy, hfy⟩ := h1
+          exact Or.inr (Or.inl ⟨hv, y, hsub' y hy, hfy.step hs1 hi1 (Step.refl s' m') (MinLe.refl _)⟩)
 
-theorem solveFromClauses_sem (hrec : SubSpec c inst dom rec) :
-    ∀ (alts : List (List Nat)) (m : Min) (s : St) (v : V) (m' : Min) (s' : St),
-      Inv c inst dom s → (∀ alt, alt ∈ alts → ∀ x, x ∈ alt → x ∈ dom) →
-      solveFromClauses cfg rec true alts none m s = .ok (v, m') s' →
-      Inv c inst dom s' ∧ Step c inst s s' m' ∧ MinLe m' m ∧
+/-- the running solution of the clause loop on ground goals: nothing yet, or ambiguous -/
+def CurOK (s : St) (cur : Option V) : Prop := cur = none ∨ (cur = some .ambig ∧ s.interrupted = true)
+
+theorem solveFromClauses_sem (hrec : SubSpec c inst dom fx rec) :
+    ∀ (alts : List (List Nat)) (cur : Option V) (m : Min) (s : St) (v : V) (m' : Min) (s' : St),
+      Inv c inst dom fx s → CurOK s cur → (∀ alt, alt ∈ alts → ∀ x, x ∈ alt → x ∈ dom) →
+      solveFromClauses cfg rec true alts cur m s = .ok (v, m') s' →
+      Inv c inst dom fx s' ∧ Step c inst s s' m' ∧ MinLe m' m ∧
         ((v = .unique ∧ ∃ alt, alt ∈ alts ∧ ∀ x, x ∈ alt → Fact c inst s s' m' x .unique) ∨
-         (v = .noSolution ∧ ∀ alt, alt ∈ alts → ∃ x, x ∈ alt ∧ Fact c inst s s' m' x .noSolution))
-  | [], m, s, v, m', s', hi, _, h => by
-    simp only [solveFromClauses, Option.getD_none, Res.ok.injEq, Prod.mk.injEq] at h
+         (v = .noSolution ∧ cur = none ∧
+            ∀ alt, alt ∈ alts → ∃ x, x ∈ alt ∧ Fact c inst s s' m' x .noSolution) ∨
+         (v = .ambig ∧ s'.interrupted = true))
+  | [], cur, m, s, v, m', s', hi, hcur, _, h => by
+    simp only [solveFromClauses, Res.ok.injEq, Prod.mk.injEq] at h
     obtain ⟨⟨hv, hm⟩, hs⟩ := h
     subst hv; subst hm; subst hs
-    exact ⟨hi, Step.refl _ _, MinLe.refl _, Or.inr ⟨rfl, fun alt ha => by cases ha⟩⟩
-  | alt :: rest, m, s, v, m', s', hi, hd, h => by
+    refine ⟨hi, Step.refl _ _, MinLe.refl _, ?_⟩
+    cases hcur with
+    | inl e => subst e; exact Or.inr (Or.inl ⟨rfl, rfl, fun alt ha => by cases ha⟩)
+    | inr e => rw [e.1]; exact Or.inr (Or.inr ⟨rfl, e.2⟩)
+  | alt :: rest, cur, m, s, v, m', s', hi, hcur, hd, h => by
     rw [solveFromClauses_cons] at h
     cases hr : fulfillSolve cfg rec alt m s with
     | panic site s1 => rw [hr] at h; cases h
@@ -115,91 +220,174 @@ theorem solveFromClauses_sem (hrec : SubSpec c inst dom rec) :
       rw [hr] at h
       obtain ⟨hi1, hs1, hle1, hres⟩ := fulfillSolve_sem hrec alt m s w m1 s1 hi
         (hd alt (List.mem_cons_self ..)) hr
-      cases hres with
-      | inl hres =>
+      have hcur1 : CurOK s1 cur := hcur.imp id (fun e => ⟨e.1, hs1.intr e.2⟩)
+      have hrest := fun (cur' : Option V) (hc' : CurOK s1 cur')
+          (h' : solveFromClauses cfg rec true rest cur' m1 s1 = .ok (v, m') s') =>
+        solveFromClauses_sem hrec rest cur' m1 s1 v m' s' hi1 hc'
+          (fun a ha => hd a (List.mem_cons_of_mem _ ha)) h'
+      rcases hres with hres | hres | hres
+      · -- the alternative succeeded: the trivially true solution ends the loop
         obtain ⟨hw, hall⟩ := hres
         subst hw
-        simp only [stepCur, trivialTrue, Bool.true_and, beq_self_eq_true, if_true, Res.ok.injEq,
-          Prod.mk.injEq] at h
+        have hstep : stepCur true .unique cur = some .unique := by
+          cases hcur with
+          | inl e => subst e; rfl
+          | inr e => rw [e.1]; rfl
+        simp only [hstep] at h
+        simp only [trivialTrue, Bool.true_and, beq_self_eq_true, if_true, Res.ok.injEq, Prod.mk.injEq] at h
         obtain ⟨⟨hv, hm⟩, hs⟩ := h
         subst hv; subst hm; subst hs
         exact ⟨hi1, hs1, hle1, Or.inl ⟨rfl, alt, List.mem_cons_self .., hall⟩⟩
-      | inr hres =>
+      · -- the alternative failed
         obtain ⟨hw, x, hx, hfx⟩ := hres
         subst hw
-        simp only [stepCur] at h
-        obtain ⟨hi2, hs2, hle2, hres2⟩ := solveFromClauses_sem hrec rest m1 s1 v m' s' hi1
-          (fun a ha => hd a (List.mem_cons_of_mem _ ha)) h
+        have hstep : stepCur true .noSolution cur = cur := rfl
+        simp only [hstep] at h
+        have h' : solveFromClauses cfg rec true rest cur m1 s1 = .ok (v, m') s' := by
+          cases hcur with
+          | inl e => subst e; exact h
+          | inr e =>
+            rw [e.1] at h ⊢
+            simpa [trivialTrue] using h
+        obtain ⟨hi2, hs2, hle2, hres2⟩ := hrest cur hcur1 h'
         refine ⟨hi2, hs1.trans hs2 hle2 hi1 hi2, hle2.trans hle1, ?_⟩
-        cases hres2 with
-        | inl hres2 =>
-          obtain ⟨hv, a, ha, hall⟩ := hres2
+        rcases hres2 with h2 | h2 | h2
+        · obtain ⟨hv, a, ha, hall⟩ := h2
           exact Or.inl ⟨hv, a, List.mem_cons_of_mem _ ha, fun y hy =>
             (hall y hy).step hs1 hi1 (Step.refl s' m') (MinLe.refl _)⟩
-        | inr hres2 =>
-          refine Or.inr ⟨hres2.1, fun a ha => ?_⟩
+        · obtain ⟨hv, hc0, hall⟩ := h2
+          refine Or.inr (Or.inl ⟨hv, hc0, fun a ha => ?_⟩)
           cases List.mem_cons.mp ha with
           | inl e => rw [e]; exact ⟨x, hx, hfx.step (Step.refl s m) hi hs2 hle2⟩
           | inr e =>
-            obtain ⟨y, hy, hfy⟩ := hres2.2 a e
+            obtain ⟨y, hy, hfy⟩ := hall a e
             exact ⟨y, hy, hfy.step hs1 hi1 (Step.refl s' m') (MinLe.refl _)⟩
+        · exact Or.inr (Or.inr h2)
+      · -- the alternative is ambiguous (solving was interrupted)
+        obtain ⟨hw, hint1⟩ := hres
+        subst hw
+        have hstep : stepCur true .ambig cur = some .ambig := by
+          cases hcur with
+          | inl e => subst e; rfl
+          | inr e => rw [e.1]; rfl
+        simp only [hstep] at h
+        have h' : solveFromClauses cfg rec true rest (some .ambig) m1 s1 = .ok (v, m') s' := by
+          simpa [trivialTrue] using h
+        obtain ⟨hi2, hs2, hle2, hres2⟩ := hrest (some .ambig) (Or.inr ⟨rfl, hint1⟩) h'
+        refine ⟨hi2, hs1.trans hs2 hle2 hi1 hi2, hle2.trans hle1, ?_⟩
+        rcases hres2 with h2 | h2 | h2
+        · obtain ⟨hv, a, ha, hall⟩ := h2
+          exact Or.inl ⟨hv, a, List.mem_cons_of_mem _ ha, fun y hy =>
+            (hall y hy).step hs1 hi1 (Step.refl s' m') (MinLe.refl _)⟩
+        · exact absurd h2.2.1 (by simp)
+        · exact Or.inr (Or.inr h2)
 
 /-- the outcome of one iteration in terms of the polarity -/
 def IterFact (c : Bool) (inst : Instance) (s s' : St) (m' : Min) (g : Nat) (v : V) : Prop :=
   (v = top c ∧ J c inst (Wit c inst s' m') g) ∨
-  (v = bot c ∧ J (!c) inst (fun x => ¬ Tgt c inst x ∧ ¬ InG c inst s x) g)
+  (v = bot c ∧ J (!c) inst (fun x => ¬ Tgt c inst x ∧ ¬ InG c inst s x) g) ∨
+  (v = .ambig ∧ s'.interrupted = true)
+
+/-- a definite answer reported for a sub-goal, read in terms of the polarity -/
+theorem Fact.top_wit {s s' : St} {m' : Min} {x : Nat} (h : Fact c inst s s' m' x (top c)) :
+    Wit c inst s' m' x := by
+  rcases h with h | h | h
+  · exact h.2
+  · exact absurd h.1 (top_ne_bot c)
+  · exact absurd h.1 (top_ne_ambig c)
+
+theorem Fact.bot_not {s s' : St} {m' : Min} {x : Nat} (h : Fact c inst s s' m' x (bot c)) :
+    ¬ Tgt c inst x ∧ ¬ InG c inst s x := by
+  rcases h with h | h | h
+  · exact absurd h.1.symm (top_ne_bot c)
+  · exact h.2
+  · exact absurd h.1 (bot_ne_ambig c)
 
 theorem iterFact_of {s s' : St} {m' : Min} {g : Nat} {v : V}
     (h : (v = .unique ∧ ∃ alt, alt ∈ inst.deps g ∧ ∀ x, x ∈ alt → Fact c inst s s' m' x .unique) ∨
-         (v = .noSolution ∧ ∀ alt, alt ∈ inst.deps g → ∃ x, x ∈ alt ∧ Fact c inst s s' m' x .noSolution)) :
+         (v = .noSolution ∧ ∀ alt, alt ∈ inst.deps g → ∃ x, x ∈ alt ∧ Fact c inst s s' m' x .noSolution) ∨
+         (v = .ambig ∧ s'.interrupted = true)) :
     IterFact c inst s s' m' g v := by
   cases c with
   | true =>
-    cases h with
-    | inl h =>
-      obtain ⟨hv, alt, ha, hall⟩ := h
-      refine Or.inl ⟨hv, alt, ha, fun x hx => ?_⟩
-      cases hall x hx with
-      | inl h => exact h.2
-      | inr h => exact absurd h.1 (by decide)
-    | inr h =>
-      refine Or.inr ⟨h.1, fun alt ha => ?_⟩
+    rcases h with h | h | h
+    · obtain ⟨hv, alt, ha, hall⟩ := h
+      exact Or.inl ⟨hv, alt, ha, fun x hx => (hall x hx).top_wit⟩
+    · refine Or.inr (Or.inl ⟨h.1, fun alt ha => ?_⟩)
       obtain ⟨x, hx, hf⟩ := h.2 alt ha
-      refine ⟨x, hx, ?_⟩
-      cases hf with
-      | inl h => exact absurd h.1 (by decide)
-      | inr h => exact h.2
+      exact ⟨x, hx, hf.bot_not⟩
+    · exact Or.inr (Or.inr h)
   | false =>
-    cases h with
-    | inl h =>
-      obtain ⟨hv, alt, ha, hall⟩ := h
-      refine Or.inr ⟨hv, alt, ha, fun x hx => ?_⟩
-      cases hall x hx with
-      | inl h => exact absurd h.1 (by decide)
-      | inr h => exact h.2
-    | inr h =>
-      refine Or.inl ⟨h.1, fun alt ha => ?_⟩
+    rcases h with h | h | h
+    · obtain ⟨hv, alt, ha, hall⟩ := h
+      exact Or.inr (Or.inl ⟨hv, alt, ha, fun x hx => (hall x hx).bot_not⟩)
+    · refine Or.inl ⟨h.1, fun alt ha => ?_⟩
       obtain ⟨x, hx, hf⟩ := h.2 alt ha
-      refine ⟨x, hx, ?_⟩
-      cases hf with
-      | inl h => exact h.2
-      | inr h => exact absurd h.1 (by decide)
+      exact ⟨x, hx, hf.top_wit⟩
+    · exact Or.inr (Or.inr h)
 
 theorem shouldContinue_quiet {s : St} (h : s.oracle = [] ∧ s.oracleDefault = true ∧ s.interrupted = false) :
     shouldContinue s = (true, s) := by
   unfold shouldContinue
   rw [h.1, h.2.1]
 
-theorem solveIteration_sem (hyp : Hyp c inst dom) (hrec : SubSpec c inst dom rec) (g : Nat) (hg : g ∈ dom)
-    (m : Min) (s : St) (v : V) (m' : Min) (s' : St) (hi : Inv c inst dom s)
+/-- changing the oracle and raising the `interrupted` flag keeps the invariant -/
+theorem Inv.oracleChange {s : St} (hi : Inv c inst dom fx s) (o : List Bool) (i : Bool)
+    (hint : s.interrupted = true → i = true)
+    (hq : QuietSt s → s.interrupted = false → o = [] ∧ i = false) :
+    Inv c inst dom fx { s with oracle := o, interrupted := i } :=
+  ⟨hi.fixes.imp id (fun h => ⟨⟨(hq h.1 h.2).1, h.1.2⟩, (hq h.1 h.2).2⟩),
+   fun k n hn ha => hint (hi.amb k n hn ha), hi.cacheOK, hi.stackCo, hi.nodup, hi.disj, hi.inDom, hi.val,
+   hi.approx, hi.stk, hi.nonstk, hi.cnt, hi.just⟩
+
+theorem Step.oracleChange (s : St) (o : List Bool) (i : Bool) (lb : Min)
+    (hint : s.interrupted = true → i = true)
+    (hq : QuietSt s → o = [] ∧ (s.interrupted = false → i = false)) :
+    Step c inst s { s with oracle := o, interrupted := i } lb :=
+  ⟨⟨[], by simp, fun n hn => by cases hn⟩, StackExt.refl _, fun _ _ h => h, fun _ _ h => h,
+   fun k hu hd => absurd hd (hu _), rfl, hint, fun q => ⟨⟨(hq q).1, q.2⟩, (hq q).2⟩⟩
+
+/-- one call of the `should_continue` callback -/
+theorem shouldContinue_cases (s : St) : ∃ b o, shouldContinue s = (b, { s with oracle := o }) ∧
+    (QuietSt s → b = true ∧ o = []) := by
+  obtain ⟨st, gr, ca, orc, od, w, intr⟩ := s
+  cases orc with
+  | nil => exact ⟨od, [], rfl, fun q => ⟨q.2, rfl⟩⟩
+  | cons b rest => exact ⟨b, rest, rfl, fun q => by cases q.1⟩
+
+theorem solveIteration_sem (hyp : Hyp c inst dom) (h3 : cfg.fixF3 = true) (hrec : SubSpec c inst dom fx rec)
+    (g : Nat) (hg : g ∈ dom) (m : Min) (s : St) (v : V) (m' : Min) (s' : St) (hi : Inv c inst dom fx s)
     (h : solveIteration inst cfg rec g m s = .ok (v, m') s') :
-    Inv c inst dom s' ∧ Step c inst s s' m' ∧ MinLe m' m ∧ IterFact c inst s s' m' g v := by
+    Inv c inst dom fx s' ∧ Step c inst s s' m' ∧ MinLe m' m ∧ IterFact c inst s s' m' g v := by
   unfold solveIteration at h
-  rw [shouldContinue_quiet hi.quiet] at h
-  simp only [hyp.ground g hg] at h
-  obtain ⟨hi1, hs1, hle1, hres⟩ := solveFromClauses_sem hrec (inst.deps g) m s v m' s' hi
-    (fun alt ha x hx => hyp.closed g hg alt ha x hx) h
-  exact ⟨hi1, hs1, hle1, iterFact_of hres⟩
+  -- the state after the call of `should_continue`
+  have hsc := shouldContinue_cases s
+  obtain ⟨b, o, hb, hq⟩ := hsc
+  rw [hb] at h
+  have i1 : Inv c inst dom fx { s with oracle := o } :=
+    hi.oracleChange o s.interrupted id (fun q e => ⟨(hq q).2, e⟩)
+  have st1 : Step c inst s { s with oracle := o } m :=
+    Step.oracleChange s o s.interrupted m id (fun q => ⟨(hq q).2, id⟩)
+  cases b with
+  | false =>
+    simp only [h3, if_true, Res.ok.injEq, Prod.mk.injEq] at h
+    obtain ⟨⟨hv, hm⟩, hs⟩ := h
+    subst hv; subst hm; subst hs
+    refine ⟨hi.oracleChange o true (fun _ => rfl) (fun q _ => by cases (hq q).1), ?_, MinLe.refl _,
+      Or.inr (Or.inr ⟨rfl, rfl⟩)⟩
+    exact Step.oracleChange s o true _ (fun _ => rfl) (fun q => by cases (hq q).1)
+  | true =>
+    simp only [hyp.ground g hg] at h
+    obtain ⟨hi1, hs1, hle1, hres⟩ := solveFromClauses_sem hrec (inst.deps g) none m _ v m' s' i1 (Or.inl rfl)
+      (fun alt ha x hx => hyp.closed g hg alt ha x hx) h
+    refine ⟨hi1, st1.trans hs1 hle1 i1 hi1, hle1, iterFact_of ?_⟩
+    rcases hres with h1 | h1 | h1
+    · obtain ⟨hv, alt, ha, hall⟩ := h1
+      exact Or.inl ⟨hv, alt, ha, fun x hx => (hall x hx).step st1 i1 (Step.refl s' m') (MinLe.refl _)⟩
+    · refine Or.inr (Or.inl ⟨h1.1, fun alt ha => ?_⟩)
+      obtain ⟨x, hx, hf⟩ := h1.2.2 alt ha
+      exact ⟨x, hx, hf.step st1 i1 (Step.refl s' m') (MinLe.refl _)⟩
+    · exact Or.inr (Or.inr h1)
 
 end
 
